@@ -1,6 +1,6 @@
 CONSTANTS
   Files = {"a.py", "src/b.c", "docs/c.md"}
-  Lics = {"MIT", "0BSD", "LicenseRef-x"}
+  Lics = {"0BSD", "LicenseRef-x"}
   GlobFiles = {"docs/c.md"}
   GlobLic = "0BSD"
   MaxCmds = 1
@@ -14,4 +14,7 @@ PROPERTY Monotone
 PROPERTY ReadersReadOnly
 PROPERTY ConversionKeepsAttribution
 PROPERTY OnlyConvertMovesGlob
+PROPERTY SiblingsOnlyGrow
+PROPERTY SkipExistingLeavesDeclaringTextsAlone
+INVARIANT LintFileVsLint
 CHECK_DEADLOCK FALSE
